@@ -197,7 +197,7 @@ pub open spec fn typed_rel<'x>(m: %s, t: StackTrace<'x>, r: StackTrace<'x>) -> b
     # ---------------- the body of the frames fold closure as an R5 region ----------------
     # `|mut frames, f| { let mut peek_frames = self.remap_frame(f).peekable(); if peek_frames.peek().is_some() { frames.extend(peek_frames); } else { frames.push(f.clone()); } frames }`
     import re
-    from vf.unit import Fragment, AnchorLost
+    from vf.unit import Fragment
     fsrc = src.impl_fn(IMPL, "remap_stacktrace_typed")
     mcl = re.search(r"\|mut frames, f\|\s*\{", fsrc.orig)
     if not mcl:
